@@ -66,7 +66,7 @@ func processHints(query sql.ISelect, hints *storage.SelectHints) sql.ISelect {
 			sql.NewOrderBy(sql.NewRawObject("timestamp_ms"), sql.ORDER_BY_DIRECTION_ASC),
 		)
 	}
-	if rangeVectors[hints.Func] && hints.Step > hints.Range {
+	if rangeVectors[hints.Func] && hints.Range > 0 && hints.Step > hints.Range {
 		// the engine evaluates at hints.Start + hints.Range + k * hints.Step: position of a sample within the step
 		// that ends at such an evaluation time
 		phase := (hints.Start + hints.Range) % hints.Step
